@@ -366,7 +366,7 @@ func (p *Path) uncaughtPanic(tp targetPanic) {
 		}
 	}
 	if p.expectPanic != "" && strings.Contains(msg, p.expectPanic) {
-		p.cover("expected-panic")
+		p.cover("engine.expected-panic")
 		return
 	}
 	if !p.ensureModelQuiet() {
